@@ -707,6 +707,10 @@ pub fn run(sc: &Scenario, strat: &Strategy, crash_every: usize) -> Option<RunRes
     }
     lines.push(("cend".into(), "ok".into()));
     lines.push(("hash".into(), format!("hash {:x}", digest(&inst.words()))));
+    if let Some(s) = solo_steps {
+        // C21: the accesses the thread needed alone must lie within the bound proved for the model (`apiB`)
+        lines.push((format!("solocheck {s}"), "within".into()));
+    }
     Some(RunResult { events, choices, violations, known, solo_steps, crash_points, lines })
 }
 
